@@ -388,7 +388,13 @@ pub fn limit_memory() {
         if NO_MEMORY_LIMIT.load(std::sync::atomic::Ordering::Relaxed) {
             return;
         }
-        let lim = libc::rlimit { rlim_cur: 6 << 30, rlim_max: 6 << 30 };
+        // Relative to what the process maps now, so that the outcome of one huge request does not
+        // depend on how much is mapped already: with 1.5 GiB of headroom a request of 2 GiB or
+        // more (a length field turned into 0x7fffffff.. by a mutant) always fails, and the tens of
+        // megabytes a legitimate decode needs always fit.
+        let mapped: u64 = std::fs::read_to_string("/proc/self/statm").ok().and_then(|t| t.split_whitespace().next().and_then(|p| p.parse::<u64>().ok())).map(|pages| pages * 4096).unwrap_or(2 << 30);
+        let cap = mapped + (3 << 29);
+        let lim = libc::rlimit { rlim_cur: cap, rlim_max: cap };
         // SAFETY: plain syscall with a valid pointer.
         unsafe {
             libc::setrlimit(libc::RLIMIT_AS, &lim);
